@@ -72,3 +72,34 @@ func VerifTwoPCResource(rcvr *TwoPCReceiver) *TwoPCArchetypeResource { return rc
 func VerifTwoPCLocalHandle(rcvr *TwoPCReceiver) ReplicaHandle {
 	return LocalReplicaHandle{receiver: rcvr.twopc}
 }
+
+// VerifTwoPCFilterHalf and VerifTwoPCInternalHalf let a harness run the two critical sections of
+// receiveFiltered as two separate steps (two Receive calls that run concurrently on one replica interleave
+// exactly there: the first section ends with leaveMutex, the second starts with receiveInternal's
+// enterMutex).  InternalHalf calls the unchanged receiveInternal.  FilterHalf is a transcription of the
+// first section of receiveFiltered (the only code in this file that repeats repository code); the C11
+// harness compares the text of receiveFiltered with the text this was transcribed from and skips its
+// split-receive configurations when they differ (VerifTwoPCFilterHalfSource).
+func VerifTwoPCFilterHalf(rcvr *TwoPCReceiver, arg TwoPCRequest, reply *TwoPCResponse) (ignoredAsOld bool) {
+	twopc := rcvr.twopc
+	twopc.enterMutex("CheckSenderTime", write)
+	senderKey := twopc.senderKey(arg.Sender)
+	if twopc.senderTimes[senderKey] > arg.SenderTime {
+		twopc.log(infoLevel, "Ignore old message %v", arg)
+		*reply = makeAccept()
+		twopc.leaveMutex("CheckSenderTime", write)
+		return true
+	}
+	twopc.senderTimes[senderKey] = arg.SenderTime
+	twopc.leaveMutex("CheckSenderTime", write)
+	return false
+}
+
+// VerifTwoPCInternalHalf is the second critical section of receiveFiltered.
+func VerifTwoPCInternalHalf(rcvr *TwoPCReceiver, arg TwoPCRequest, reply *TwoPCResponse) error {
+	return rcvr.twopc.receiveInternal(arg, reply)
+}
+
+// VerifTwoPCFilterHalfSource is the body of receiveFiltered that VerifTwoPCFilterHalf was transcribed from,
+// comments and white space removed.
+const VerifTwoPCFilterHalfSource = `func(twopc*TwoPCArchetypeResource)receiveFiltered(argTwoPCRequest,reply*TwoPCResponse)error{twopc.enterMutex("CheckSenderTime",write)senderKey:=twopc.senderKey(arg.Sender)iftwopc.senderTimes[senderKey]>arg.SenderTime{twopc.log(infoLevel,"Ignoreoldmessage%v",arg)*reply=makeAccept()twopc.leaveMutex("CheckSenderTime",write)returnnil}else{twopc.senderTimes[senderKey]=arg.SenderTimetwopc.leaveMutex("CheckSenderTime",write)}returntwopc.receiveInternal(arg,reply)}`
